@@ -143,13 +143,12 @@ theorem resolves_abbrev (cfg : Cfg) (habbr : cfg.abbr = true) (i : Nat) (d : Arg
       subst hj
       exact huniq j a ha ((startsWith_long_word a.key name hne).mp hs)
 
-/-- the word typed behind `--` is looked up as a long key: a word of two or more characters without
-    leading dash, blank or comma parses to `⟨none, word⟩` -/
-theorem parse_typed_name (name : List Char) (h2 : 2 ≤ name.length) (hd : name.head? ≠ some '-')
-    (hs : ' ' ∉ name) (hc : ',' ∉ name) : Key.parse name = .ok ⟨none, name⟩ := by
-  have hne : name ≠ [] := by intro h; rw [h] at h2; simp at h2
-  have := (parse_forms 'a' name (by decide) ⟨hne, hd, hs, hc⟩).2.1 h2 [] (by simp)
-  simpa using this
+/-- the word typed behind `--` is looked up as a long key: a word of one or more characters without
+    leading dash, blank or comma gives the lookup key `⟨none, word⟩` (`wordKey`: since the `fix:` commit
+    for the finding one-char-long-key also a word of one character) -/
+theorem parse_typed_name (name : List Char) (hne : name ≠ []) (hd : name.head? ≠ some '-')
+    (hs : ' ' ∉ name) (hc : ',' ∉ name) : wordKey name = .ok ⟨none, name⟩ :=
+  wordKey_word name ⟨hne, hd, hs, hc⟩
 
 /-! ### the checks `minLength`, `maxLength`, `values` -/
 
